@@ -51,6 +51,14 @@ pub fn machines(opts: &Opts) -> Vec<MCfg> {
         m.seeds = vec![0];
         m.clear_vias = vec![0];
         out.push(m);
+        let mut m = base_cfg("pool/N2P1D2-unmerged", leaves(var), vec![OpK::Mul, OpK::Ln, OpK::Reshape(vec![6])], 5);
+        m.bounds = Bounds { builds: 2, passes: 1, drops: 2, clears: 1, depth: 5, ..Bounds::default() };
+        m.check_ownership = true;
+        m.check_ref = true;
+        m.seeds = vec![0];
+        m.clear_vias = vec![0];
+        m.merged = false;
+        out.push(m);
         let mut m = base_cfg("nested-user-op/N2P1D2", leaves(var), vec![OpK::Mul, OpK::UMulN], 5);
         m.bounds = Bounds { builds: 2, passes: 1, drops: 2, depth: 5, ..Bounds::default() };
         m.check_ownership = true;
